@@ -349,3 +349,157 @@ def c19_ser_total(F, R):
     sel |= {p for p in F.fns if "test_wrapper" in p and "hir" in F.fns[p] and not (F.fns[p].get("exp") or "").startswith("Derive")}
     n = run_g1(F, R, "G1.panic-sites", lambda p: p.split("::{closure")[0] in sel, roots=sorted(sel))
     R.ok("bodies", detail=f"{n} serializer / display bodies examined")
+
+
+# ---------------------------------------------------------------------------- R4 operator semantics (C08) / C01.e
+def _sem(v):
+    """semantic descriptor of a traced result: (prim, view, [operand names]) | ('const', n) | ('var', name) | None"""
+    if v is None:
+        return None
+    t = v[0]
+    if t == "const":
+        return ("const", v[1])
+    if t == "param":
+        return ("var", v[2])
+    if t == "cast":
+        fb, tb = ty_bits(v[2]), ty_bits(v[3])
+        inner = _sem(v[4])
+        if inner and inner[0] == "bin_shr32_mul" and tb == 32:
+            return ("mulh", None, inner[1])
+        if fb == tb or (inner and inner[0] in ("var",)):
+            return inner if inner and inner[0] != "var" else ("var", inner[1]) if inner else None
+        return inner
+    if t == "call":
+        c = v[1]
+        m = re.search(r"<impl ([iu])(\d+)>::(wrapping|overflowing)_(add|sub|mul|shl|shr|div|rem)$", c)
+        if m:
+            view = "signed" if m.group(1) == "i" else "unsigned"
+            ops = [_opname(a) for a in v[2]]
+            return ({"add": "add", "sub": "sub", "mul": "mul", "shl": "shl", "shr": "shr", "div": "div", "rem": "rem"}[m.group(4)], view, ops)
+        if "From<bool>" in c or re.search(r"From<\w+> for \w+>::from$", c):
+            return _sem(v[2][0]) if v[2] else None
+        if re.search(r"Option::<T>::(unwrap_or|map_or)$", c) and len(v[2]) >= 2:
+            inner, fb = v[2][0], v[2][1]
+            while inner[0] == "cast":
+                inner = inner[4]
+            mm = re.search(r"<impl ([iu])(\d+)>::checked_(div|rem)$", inner[1]) if inner[0] == "call" else None
+            if mm:
+                view = "signed" if mm.group(1) == "i" else "unsigned"
+                return ("checked_" + mm.group(3), view, [_opname(a) for a in inner[2]], _sem(fb))
+        return None
+    if t == "bin":
+        op = v[1].replace("WithOverflow", "").replace("Unchecked", "")
+        view = "signed" if (v[2] or "").startswith("i") else "unsigned"
+        ops = [_opname(v[3]), _opname(v[4])]
+        if op == "Shr" and v[4][0] == "const" and v[4][1] == 32 and strip_casts(v[3])[0] in ("bin", "proj"):
+            inner = strip_casts(v[3])
+            if inner[0] == "proj":
+                inner = inner[1]
+            if inner[0] == "bin" and inner[1].startswith("Mul"):
+                return ("bin_shr32_mul", [_opname(inner[3]), _opname(inner[4])])
+        return ({"Add": "add", "Sub": "sub", "Mul": "mul", "BitAnd": "bitand", "BitOr": "bitor", "BitXor": "bitxor", "Shl": "shl", "Shr": "shr",
+                 "Lt": "lt", "Div": "div", "Rem": "rem"}.get(op, op.lower()), view, ops)
+    if t == "proj":
+        return _sem(v[1])
+    return None
+
+
+def _opname(v):
+    """name of the 32-bit parameter an operand is derived from through casts / lossless conversions"""
+    while True:
+        if v[0] == "cast":
+            v = v[4]
+        elif v[0] == "call" and "convert::From" in v[1] and v[2]:
+            v = v[2][0]
+        elif v[0] == "proj":
+            v = v[1]
+        else:
+            break
+    if v[0] == "param":
+        return v[2]
+    if v[0] == "const":
+        return v[1]
+    return "?"
+
+
+@rule("C08", "R4.operator-semantics", floor=18)
+def c08_r4_sem(F, R):
+    """each folding arm applies the RV32IM primitive of its operator, on the right operand view and order, and returns the architected value for a zero divisor"""
+    import json, os
+    from .core import VERIF
+    ref = json.load(open(os.path.join(VERIF, "reference", "rv32im_formats.json")))["folding"]["semantics"]
+    MATHOP = "riscv_analysis::cfg::ops::MathOp"
+    f = F.fn(F.method(MATHOP, "operate"))
+    B = Body(f)
+    vidx = {v["name"]: v["idx"] for v in F.adt(MATHOP)["variants"]}
+    sw = B.blocks[0]["term"]
+    if sw["k"] != "SwitchInt":
+        R.bad("shape", "UNEXTRACTABLE: MathOp::operate does not start with a switch on the operator", f["sp"])
+        return
+    tgt = {v: b for v, b in sw["targets"]}
+    starts = set(tgt.values())
+    for name, spec in sorted(ref.items()):
+        if name.startswith("_"):
+            continue
+        start = tgt.get(vidx.get(name))
+        if start is None:
+            R.bad(f"{name}|arm", f"no arm for MathOp::{name}", f["sp"])
+            continue
+        # region of this arm: blocks reachable from its start (arms only meet at the common exit)
+        region = B.reachable_from(start)
+        results = []
+        for b in sorted(region):
+            blk = B.blocks[b]
+            for s in blk["stmts"]:
+                if s["k"] == "Assign" and s["place"]["l"] == 0 and not s["place"]["p"]:
+                    rv = s["rv"]
+                    if rv["k"] == "Use":
+                        v = B.trace(rv["op"])
+                    elif rv["k"] == "BinaryOp":
+                        v = ("bin", rv["op"], rv["aty"], B.trace(rv["a"]), B.trace(rv["b"]))
+                    elif rv["k"] == "Cast":
+                        v = ("cast", rv["cast"], rv["from"], rv["to"], B.trace(rv["op"]))
+                    else:
+                        v = ("rv", rv["k"])
+                    results.append((b, v))
+            t = blk["term"]
+            if t["k"] == "Call" and t["dest"]["l"] == 0 and not t["dest"]["p"]:
+                results.append((b, ("call", t.get("resolved") or t.get("callee"), tuple(B.trace(a) for a in t["args"]))))
+        sems = [(b, _sem(v)) for b, v in results]
+        main = [s for b, s in sems if s and s[0] not in ("const", "var")]
+        zero = [s for b, s in sems if s and s[0] in ("const", "var")]
+        overflow_fallback = None
+        if len(main) == 1 and main[0][0].startswith("checked_"):
+            # `checked_div(y).unwrap_or(f)`: None covers y == 0 and, for the signed view, MIN / -1 as well
+            ck = main[0]
+            main = [(ck[0][len("checked_"):], ck[1], ck[2])]
+            zero = [ck[3]] if ck[3] else []
+            if ck[1] == "signed":
+                overflow_fallback = ck[3]
+        if len(main) != 1:
+            R.bad(f"{name}", f"UNEXTRACTABLE: {name} arm has {len(main)} computed results ({sems})", f["sp"])
+            continue
+        prim, view, ops = main[0]
+        problems = []
+        if prim != spec["prim"]:
+            problems.append(f"applies `{prim}`, RV32IM {name} is `{spec['prim']}`")
+        if "view" in spec and view != spec["view"] and prim == spec["prim"]:
+            problems.append(f"operates on the {view} view, RV32IM {name} is {spec['view']}")
+        if "order" in spec and prim == spec["prim"] and list(ops[:2]) != spec["order"]:
+            problems.append(f"operand order {ops[:2]}, expected {spec['order']}")
+        if spec.get("commutative") and prim == spec["prim"] and sorted(map(str, ops[:2])) != ["x", "y"]:
+            problems.append(f"operands {ops[:2]}, expected x and y")
+        if "zero_divisor" in spec:
+            want = spec["zero_divisor"]
+            got = [(z[1]) for z in zero]
+            if got != [want]:
+                problems.append(f"returns {got} for a zero divisor, the architected result is {want}")
+        elif zero:
+            problems.append(f"has constant results {zero} besides the computed one")
+        if overflow_fallback is not None:
+            want_of = {"div": "the dividend (MIN)", "rem": 0}.get(prim)
+            problems.append(f"uses a checked signed {prim} whose fallback {overflow_fallback[1]!r} is also returned for MIN / -1, where RV32M gives {want_of}")
+        if problems:
+            R.bad(name, f"MathOp::{name}: " + "; ".join(problems), f["sp"])
+        else:
+            R.ok(name, detail=f"{name}: {prim}{'/' + view if 'view' in spec else ''}({', '.join(map(str, ops[:2]))})" + (f", zero divisor -> {spec['zero_divisor']}" if "zero_divisor" in spec else ""))
